@@ -80,6 +80,7 @@ class Spec:
 
     def __init__(self, strategy, custom, min_voters, ballot):
         self.strategy, self.custom, self.min_voters = strategy, custom, min_voters
+        self.ballot = ballot
         self.votes = [cast(v) for v in ballot]
         self.n = len(ballot)
         self.P = [v for v in self.votes if v[0] == "permit"]
@@ -97,7 +98,8 @@ class Spec:
         return self.custom is None or self.custom >= 0
 
     def valid(self):
-        return all(w >= 0 and c >= 0 for (_, c, w) in self.votes)
+        """Voter.Valid of Lemmas/C06.lean: weight, reliability and a numeric confidence are not negative"""
+        return all(w >= 0 and r >= 0 and (c in ("none", "bad") or Fraction(c) >= 0) for (_, w, r, c) in self.ballot)
 
     def bayes(self):
         pp = pb = DOC_PRIOR
@@ -221,7 +223,7 @@ class C06(Prop):
     thorough_budget = 50000
     extractors = ["E5-quorum"]
     all_branches = ["gate"] + [f"{s}:{o}" for s in STRATS for o in ("permit", "block")] + ["threshold:raise"]
-    assumptions = [
+    _assumptions = [
         "voter agents return or raise; they do not call back into the quorum object",
         "weights, reliabilities and confidences of the correspondence are dyadic rationals; ballots whose exact "
         "Bayesian posterior is within 1e-6 of the threshold are dropped (float boundary), see skipped_float_boundary",
@@ -235,6 +237,11 @@ class C06(Prop):
 
     def __init__(self):
         self.skipped_float_boundary = 0
+
+    @property
+    def assumptions(self):
+        return self._assumptions + [f"skipped_float_boundary: {self.skipped_float_boundary} generated ballots dropped "
+                                    f"because float and exact comparison could differ (within 1e-6 of the threshold)"]
 
     # --- setup / extraction --------------------------------------------------------------------------------
     def setup(self, ctx):
@@ -369,8 +376,28 @@ class C06(Prop):
                     ls.append(l)
             if len(ls) > 1:
                 kept.append({"lines": ls, "note": "exhaustive"})
+        # every (permit, block, idle) count profile of up to 9 voters for the strategies that only count
+        count_cases = []
+        for c in ["cfg majority none 1", "cfg supermajority none 1", "cfg unanimous none 1", "cfg threshold none 1",
+                  "cfg emergency none 1", "cfg majority 3/4 2", "cfg threshold 3 1", "cfg threshold 1/2 1"]:
+            lines = [c]
+            for tot in range(0, 10):
+                for p in range(0, tot + 1):
+                    for idle in (0, 1, 2):
+                        if p + idle > tot:
+                            continue
+                        ballot = ([("P", "1", "1", "none")] * p + [("B", "1", "1", "none")] * (tot - p - idle)
+                                  + [("U", "1", "1", "none"), ("D", "1", "1", "none")][:idle])
+                        lines.append(self.vote_line(ballot))
+                        if len(lines) > 40:
+                            count_cases.append({"lines": lines, "note": "exhaustive counts"})
+                            lines = [c]
+            if len(lines) > 1:
+                count_cases.append({"lines": lines, "note": "exhaustive counts"})
         return [{"name": f"all multisets of <= {kmax} voters over a {len(alpha)}-voter alphabet x {len(cfgs)} configurations",
-                 "cases": kept}]
+                 "cases": kept},
+                {"name": "all (permit, block, idle) count profiles of <= 9 voters x 8 counting configurations",
+                 "cases": count_cases}]
 
     # --- implementation ---------------------------------------------------------------------------------------
     def _make(self, strat, custom, mv, n, emergency=False):
